@@ -232,6 +232,18 @@ func cmdCheck(args []string) {
 		}
 		records = append(records, rec)
 	}
+	// findings recorded from the audit of the unchanged tree that no obligation
+	// covers (each has a failing test on the real code under /verif/audit): they
+	// are listed on every run, they neither hide nor cause a violation
+	auditListed := 0
+	for i := range known.Findings {
+		k := &known.Findings[i]
+		if k.Property == prop && strings.HasPrefix(k.Obligation, "audit:") {
+			auditListed++
+			fmt.Printf("KNOWN-FINDING: property=%s %s %s\n", prop, k.Obligation, k.What)
+		}
+	}
+	_ = auditListed
 	// vacuity guards
 	var notes []string
 	if exp, ok := base.Properties[prop]; ok && !*baseline {
@@ -316,6 +328,7 @@ func cmdCheck(args []string) {
 		"solvers":                  slist,
 		"samples":                  samples,
 		"known_findings_matched":   knownMatched,
+		"known_findings_audit":     auditListed,
 		"engine_limits":            limits,
 		"notes":                    notes,
 		"explanation":              "every obligation (postcondition, call precondition, loop invariant init/step, variant, frame, safety at each index/slice/dereference/assertion, lemma) generated from the current source of the functions under contract that carry this property; an obligation counts as discharged only when a solver answered unsat",
